@@ -43,7 +43,7 @@ def sweep_plans(base, rng, tier):
                 w, h = rng.choice([(0, 0), (1, 1), (800, 600), (4096, 2048), (65535, 65535)])
                 c["w"], c["h"] = w, h
                 c["layout"] = rng.choice(["us", "fr", "de"])
-                p["srv"]["uid"] = rng.choice([1001, 1002, 1004, 1007, 0x7fff, 0x8000, 0xfffe, 0xffff, rng.randrange(1001, 65536)])
+                p["srv"]["uid"] = rng.choice([1001, 1002, 1004, 1007, 0x7fff, 0x8000, 0xfffe, 0xffff, rng.choice([u for u in (rng.randrange(1001, 65536), 1005) if u != 1003])])
                 plans.append(p)
                 k += 1
     # length ladder: the MCS send-data user data of the Client Info PDU crosses every PER length boundary
